@@ -58,7 +58,8 @@ COMPONENTS = {
     "stub": ["event loop clock+selector -> sims.s6_aio.VirtualLoop (virtual time)",
              "aiohttp.ClientSession/ClientResponse/StreamReader -> scripted FakeSession (origin + network simulated, "
              "incl. ClientTimeout(total))",
-             "fetch_url's background thread: _ensure_pool/_create_session hand out the fake session, "
+             "fetch_url's background thread: the REAL _ensure_pool/_reset_session run with 'new event loop' = the virtual loop and 'thread' = "
+             "not started; _create_session returns the fake session, which keeps the ClientTimeout it was given (sock_connect is honoured), "
              "asyncio.run_coroutine_threadsafe runs the coroutine to completion on the virtual loop in the caller",
              "external_fetch.time -> virtual clock", "_codec.decompress wrapped by an observer (arguments/result size)"],
 }
